@@ -21,7 +21,7 @@ import c16_lib as L
 import c16_worlds as W
 
 LEVEL = "other"
-READY = False
+READY = True
 TARGETS = ["theories/Props/C16.vo", "theories/Extract/ExMdTotal.vo"]
 THEOREMS = ["C16_md_print_ty_exact", "C16_md_print_ty_only_site", "C16_md_generate_exact", "C16_md_partial",
             "C16_md_refuted_anon_fixed_length_list", "C16_md_refuted_named_future", "C16_md_refuted_named_stream",
@@ -75,6 +75,9 @@ def setup():
 
 
 def run_mode(exe, mode, cases, shards=None):
+    if mode == "gen" and len(cases) > 64:
+        # supervised: a case that prints nothing for 15 minutes is answered `hang`, a dying process `crash`
+        return L.run_supervised([exe, mode], [genlib.encode(*c) for c in cases], shards=shards, stall=900)
     return vf.run_filter([exe, mode], [genlib.encode(*c) for c in cases], shards=shards, timeout=3000)
 
 
@@ -98,8 +101,13 @@ def lang_configs():
 
 def parse_outcome(lang, line):
     """-> ('ok'|'err'|'panic', key or message)"""
+    if line is None:
+        return "panic", ("%s:no-result" % lang, "no result line")
     if line.startswith("ok"):
         return "ok", ""
+    if line.startswith("hang") or line.startswith("crash"):
+        # neither bindings nor an error: the generator did not return (stall) or took the process down (abort, stack overflow)
+        return "panic", ("%s:%s" % (lang, line.split(" ")[0]), line)
     if line.startswith("panic "):
         loc, _, msg = line[6:].partition("\x1e")
         return "panic", (L.panic_key(lang, loc, msg), msg)
@@ -233,7 +241,7 @@ def shrink_world(exe, lang, opts, text, key, max_steps=500):
 
 def run(ctx):
     quick = ctx.tier == "quick"
-    n_random = 260 if quick else 12000
+    n_random = 170 if quick else 4000
     cov = ctx.coverage
     ctx.assumptions += [
         "valid world := wit-parser accepts the text, the world can be selected, and wit-component's encoding of the package validates under wasmparser with all features on (harness `detnp valid`)",
@@ -241,8 +249,14 @@ def run(ctx):
         "declared-unsupported features are computed from crates/test/src/<lang>.rs should_fail_verify evaluated on tests/codegen (Go: go_async_supported() taken as true, i.e. the fewest exclusions); feature vocabulary = witgen's features + fallible-ctor, async-method, handle-alias",
         "panic classification key = backend : file : enclosing fn : source text of the line the panic location names",
     ]
+    timing, _t = {}, [time.time()]
+
+    def mark(label):
+        timing[label] = round(time.time() - _t[0], 1); _t[0] = time.time()
     proof_ok = ctx.proof_leg(["theories/Props/C16.vo"], ["Props.C16"], THEOREMS)
+    mark("proof_leg")
     ok1, exe, log1, ok2, drv, log2 = build()
+    mark("build")
     if not ok1:
         ctx.tie_broken("tie", "harness detnp does not build against the working tree (a new TypeDefKind/Type/WorldItem constructor breaks mddump.rs on purpose):\n" + log1[-3000:])
         return
@@ -295,7 +309,9 @@ def run(ctx):
     rws, rej = witgen.gen_valid_worlds(ctx.rng.fork(16), n_random, W.random_opts)
     for i, w in enumerate(rws):
         worlds.append(("random", "random:%d" % i, w.text, None))
+    mark("world_generation")
     valid = run_mode(exe, "valid", [("", "", None, t) for _, _, t, _ in worlds])
+    mark("validity_filter")
     n_invalid = {}
     kept = []
     for w, v in zip(worlds, valid):
@@ -311,6 +327,7 @@ def run(ctx):
     # ---------------------------------------------------------------- tie (K): model vs real Markdown
     dumps = run_mode(exe, "mddump", [("markdown", "", None, t) for _, _, t, _ in worlds])
     md_real = run_mode(exe, "gen", [("markdown", "", None, t) for _, _, t, _ in worlds])
+    mark("mddump_and_real_markdown")
     covset, mism, n_model_panic, shape0, site_hist = set(), [], 0, 0, {}
     if model_ok:
         idx = [i for i, d in enumerate(dumps) if d.startswith("ok ")]
@@ -352,15 +369,22 @@ def run(ctx):
         if mism:
             ctx.tie_broken("tie", "Markdown model and real generator disagree on %d/%d worlds; first: %s" % (len(mism), len(worlds), mism[0]))
 
+    mark("model_run_and_compare")
     # ---------------------------------------------------------------- differential leg on the real generators
     cases, meta = [], []
     for wi, (origin, name, text, test) in enumerate(worlds):
         for (lang, kind, args, xkind) in cfgs:
-            if kind.startswith("x-") and origin == "random" and quick:
-                continue
+            if quick:
+                # quick tier: every world under every backend's default options; the option variants on the corpus, the
+                # witnesses, every 5th directed world and (crates/test's own variants only) the random worlds
+                if kind.startswith("x-") and origin == "random":
+                    continue
+                if kind != "" and origin == "directed" and wi % 5 != 0:
+                    continue
             cases.append((lang, " ".join(args), None, text))
             meta.append((wi, lang, kind, xkind))
     outs = run_mode(exe, "gen", cases)
+    mark("differential_generation")
     per = {}          # lang -> counters
     classes = {}      # key -> dict(count, smallest example, excluded count)
     opt_err = []
@@ -406,6 +430,7 @@ def run(ctx):
                       % (cl["lang"], cl["msg"], cl["lang"], cl["n_in_scope"], e["wit"]),
                       {"engine": "gen", "lang": e["lang"], "opts": e["opts"], "wit": e["wit"], "key": key, "variant": e["variant"]})
 
+    mark("classification_and_shrinking")
     # ---------------------------------------------------------------- evidence
     positions = sorted({c.split(":")[0] for c in covset})
     ctors = sorted({c.split(":")[1] for c in covset})
@@ -438,7 +463,7 @@ def run(ctx):
                               "should_fail_verify": {l: getattr(lts[l], "should_fail_text", "(none)") for l in L.LANGS}},
         "distribution": {"worlds_by_origin": origin_hist, "invalid_dropped_by_origin": n_invalid, "witgen_rejected_by_wit_parser": rej,
                          "worlds_with_feature": feat_hist, "positions_covered": positions, "constructors_covered": ctors,
-                         "position_x_constructor_pairs": len(covset), "world_gen_wall_s": round(time.time() - t0, 1)},
+                         "position_x_constructor_pairs": len(covset), "legs_wall_s": round(time.time() - t0, 1), "phase_wall_s": timing},
     })
 
 
